@@ -188,6 +188,8 @@ def run_property(pid, tier="quick", seed=0, only=None, verbose=False):
     t_explore = time.time()
     explored = _explore_parallel(pid, idx)
     t_explore = time.time() - t_explore
+    if os.environ.get("PYVC_TRACE"):
+        print(f"TRACE explored {len(contracts)} contracts in {t_explore:.1f}s", file=sys.stderr, flush=True)
     for c, ex in zip(contracts, explored):
         if ex.get("extract_error"):
             undecided.append({"contract": c.id, "reason": f"extract: {ex['extract_error']}"})
@@ -211,7 +213,7 @@ def run_property(pid, tier="quick", seed=0, only=None, verbose=False):
             counts[kind] = k + 1
             name = f"{pid}/{c.target}/{c.id}/{kind}#{k}"
             meta[name] = {"contract": c, "descr": descr, "line": lineno, "kind": kind}
-            jobs.append((name, smt2, timeout_ms))
+            jobs.append((name, smt2, timeout_ms, getattr(c, "prefer", None)))
         for k, (kind, descr, lineno) in enumerate(ex["trivial"]):
             name = f"{pid}/{c.target}/{c.id}/{kind}#t{k}"
             meta[name] = {"contract": c, "descr": descr, "line": lineno, "kind": kind, "trivial": True}
@@ -236,7 +238,11 @@ def run_property(pid, tier="quick", seed=0, only=None, verbose=False):
             jobs.append((name, ob.smt2(), timeout_ms))
 
     t_solve = time.time()
+    if os.environ.get("PYVC_TRACE"):
+        print(f"TRACE discharging {len(jobs)} jobs", file=sys.stderr, flush=True)
     results = solve_all(jobs)
+    if os.environ.get("PYVC_TRACE"):
+        print(f"TRACE discharged in {time.time() - t_solve:.1f}s", file=sys.stderr, flush=True)
     t_solve = time.time() - t_solve
     by_name = {r["name"]: r for r in results}
 
